@@ -33,6 +33,9 @@ the shared statement generator of format_util does not produce at level 'c12' / 
    parses once.  The renderings of one tree under option sets that differ in cosmetic options only must carry the
    same content -- the first sentence of the statement for the two-step route.
 
+6. EMPTY VALUES AND ABBREVIATIONS CUT SHORT (see the section at the end of this file): `{}`, `p{}`, `[title=""]` in
+   every position, and every prefix of an abbreviation as an as-you-type expansion sees it (`div>{`, `ul>li+`).
+
 Nothing here looks at the library's tables; the names and defaults are the documented ones (see c12_opts.py).
 """
 import re
@@ -513,3 +516,171 @@ def shorthand_sweep():
             if '/' in u[1] and ('%(c)s' in sk.split('%(b)s')[1][:3] or '{' in sk):
                 u[1] = u[1].rstrip('/')
             yield sk % {'a': u[0], 'b': u[1], 'c': u[2]}
+
+
+# ---------------------------------------------------------------- 6. empty values and abbreviations cut short
+# EMPTY VALUES WRITTEN EXPLICITLY.  A closing delimiter may follow its opening one directly: the empty text node `{}`,
+# the empty text of an element `p{}`, the empty attribute list `p[]`, the empty quoted attribute value `[title=""]`,
+# the empty expression `[on={}]`, the empty group-like repeat `{}*2`.  An empty text node is a node like any other
+# for the operators: only / first / last / middle child, top level, next to another text node, next to another empty
+# one, inside a group, repeated, below an inline element, with children of its own.
+# ABBREVIATIONS CUT SHORT (as-you-type).  An editor expands what the user has typed so far: every PREFIX of an
+# abbreviation -- cut directly after an opening `{` `[` `(` (the unclosed forms are accepted by the parser), after an
+# operator, inside a text, inside a name.  A prefix either fails to parse under every option set alike or expands
+# under every option set with the same content.
+# Nothing is special about these inputs in the statement: the formatting options stay cosmetic (in particular an
+# expansion that succeeds with formatting off succeeds with formatting on, and the other way round) and every line
+# of the formatted output -- also a line that holds nothing but the indentation of an empty text node -- starts with
+# baseIndent plus one unit per open element.
+EMPTY_UNITS = ['{}', 'p{}', 'span{}', 'p[]', 'p[title=""]', "a[title='']{}", 'p[on={}]', '{}*2', 'p{}*2', 'em{}/', '.c{}', '#i{}']
+EMPTY_HOSTS = ['%s', 'div>%s', 'div>%s+p', 'div>p+%s', 'div>p+%s+span', 'p+%s', '%s+p', 'div>(%s)', 'div>(%s+p)', '(%s)+p',
+               'ul>li*2>%s', 'div>{a}+%s', 'div>%s+{a}', 'div>%s+{}', 'span>%s', 'div>span>%s', 'div>%s>p', 'section>div>%s+p',
+               'div>p>%s^%s', '(div>%s)*2', 'p{t}>%s', '{t}>%s', 'div>em+%s+b']
+EMPTY_OPTION_SETS = [
+    {},
+    {'output.indent': '  ', 'output.baseIndent': '\t', 'output.newline': '\r\n'},
+    {'output.formatLeafNode': True, 'output.inlineBreak': 1},
+    {'output.inlineBreak': 0, 'output.formatForce': ['p', 'div']},
+    {'output.indent': '    ', 'output.formatLeafNode': True},
+]
+# full abbreviations whose every prefix is expanded (deterministic part of the as-you-type class)
+TYPED_ABBRS = ['div>{a}', 'ul>li+{t}', 'p+{x y}', 'div>p{a}+{b}', 'section>div>{}+p', 'ul>li*2>{i$}', 'div>(p+{t})*2',
+               'div#i.c[title="x y"]>span{t}', 'p>a[href=x]{l}+em', 'table>tr>td{a\nb}', 'div>(header>{h})+{t}', '{a}+div>{b}',
+               'nav>ul>li.item$*2>a{T $}', 'div>p[on={f}]+{z}', 'span>{a}+b', "p[title='q' data-e]>{t}^{u}"]
+
+
+def empty_value_sweep():
+    """(abbr, options of the formatted run): every empty unit in every host, option sets rotating."""
+    k = 0
+    for host in EMPTY_HOSTS:
+        for unit in EMPTY_UNITS:
+            yield host.replace('%s', unit), EMPTY_OPTION_SETS[k % len(EMPTY_OPTION_SETS)]
+            k += 1
+
+
+def prefixes(abbr):
+    """Every proper non-empty prefix and the abbreviation itself."""
+    return [abbr[:i] for i in range(1, len(abbr) + 1)]
+
+
+def typed_prefix_sweep(stride=1):
+    """(prefix, options of the formatted run) for every prefix of the TYPED_ABBRS; with a stride only every stride-th
+    prefix that does NOT end in an opening delimiter or operator is kept (those that do are always kept)."""
+    k = 0
+    seen = set()
+    for abbr in TYPED_ABBRS:
+        for p in prefixes(abbr):
+            k += 1
+            if p in seen:
+                continue
+            if stride > 1 and p[-1] not in '{[(>+^*' and k % stride:
+                continue
+            seen.add(p)
+            yield p, EMPTY_OPTION_SETS[k % len(EMPTY_OPTION_SETS)]
+
+
+def put_empty_values(rng, stmt, p_textnode=0.2, p_text=0.15, p_attr=0.1, p_insert=0.15):
+    """In place: some elements become empty text nodes `{}` (those followed by `>` keep their children), some get the
+    empty text `{}`, some an empty quoted attribute value; an empty text node is inserted as a new sibling here and
+    there.  Returns the number of empty values."""
+    n = 0
+    k = 0
+    while k < len(stmt):
+        unit, op = stmt[k]
+        if isinstance(unit, g.Group):
+            n += put_empty_values(rng, unit.items, p_textnode, p_text, p_attr, p_insert)
+            k += 1
+            continue
+        r = rng.random()
+        if r < p_textnode:
+            stmt[k] = (text_node('', unit.repeat), op)
+            n += 1
+        elif r < p_textnode + p_text:
+            unit.text = ''
+            unit.self_close = False
+            n += 1
+        u = stmt[k][0]
+        if u.name and rng.random() < p_attr:
+            u.attrs = list(u.attrs) + [(rng.choice(['title', 'data-q']), '', rng.choice(['"', "'", '{']))]
+            n += 1
+        if rng.random() < p_insert and op != '>':
+            # a new sibling after this unit: `x+{}` followed by what followed x
+            stmt[k] = (stmt[k][0], '+')
+            stmt.insert(k + 1, (text_node('', rng.choice([None, None, 2])), op))
+            n += 1
+            k += 1
+        k += 1
+    return n
+
+
+def cut_short(rng, abbr):
+    """A prefix of the abbreviation: in most draws cut directly after an opening delimiter or an operator (the
+    positions an as-you-type expansion sees most often), else anywhere."""
+    spots = [i + 1 for i, c in enumerate(abbr) if c in '{[(>+^']
+    if spots and rng.random() < 0.7:
+        return whole_tags_only(abbr[:rng.choice(spots)])
+    return whole_tags_only(abbr[:rng.randint(1, len(abbr))])
+
+
+def whole_tags_only(prefix):
+    """A text that itself writes tags (`{<div>x</div>}`) is cut at its opening brace only: a partial tag left in a
+    text (`{<d`, `{<div>x</di`) cannot be told from a real tag by the tag scanner the oracles read the output with."""
+    stack = []          # (offset, is the brace of a field `${`)
+    for i, c in enumerate(prefix):
+        if c == '{':
+            stack.append((i, prefix[i - 1:i] == '$'))
+        elif c == '}' and stack:
+            stack.pop()
+    texts = [i for i, is_field in stack if not is_field]
+    if texts and '<' in prefix[texts[0]:]:
+        return prefix[:texts[0] + 1]
+    return prefix
+
+
+def rand_unfinished_stmt_abbr(rng, level):
+    """Abbreviation of the given level with empty values put in; half of the draws are then cut short."""
+    names = g.safe_names()
+    if level != 'depth':
+        names = names + fu.SNIPPET_NAMES[:4]
+    abbr = None
+    for _ in range(20):
+        st = g.rand_stmt(rng, names, rng.randint(1, 7), max_depth=3, rep_max=3, decorate=fu.decorator(rng, level))
+        if put_empty_values(rng, st):
+            abbr = g.render(st)
+            break
+    if abbr is None:
+        abbr = 'div>{}+p'
+    if rng.random() < 0.5:
+        abbr = cut_short(rng, abbr)
+    return abbr
+
+
+def empty_class_marks(abbr):
+    """Names of the sub-classes an abbreviation of class 6 belongs to (for the coverage record)."""
+    out = []
+    if re.search(r'(^|[>+^(])\{\}', abbr):
+        out.append('empty-text-node')
+    if re.search(r'[\w\]]\{\}', abbr):
+        out.append('empty-element-text')
+    if re.search(r'=(""|\'\'|\{\})', abbr) or '[]' in abbr:
+        out.append('empty-attribute-value-or-list')
+    if abbr.endswith('{'):
+        out.append('cut-after-open-brace')
+    elif abbr.endswith('['):
+        out.append('cut-after-open-bracket')
+    elif abbr.endswith('('):
+        out.append('cut-after-open-paren')
+    elif abbr[-1:] in '>+^*':
+        out.append('cut-after-operator')
+    else:
+        # unbalanced delimiters: cut inside a text / attribute list / group
+        depth = {'{': 0, '[': 0, '(': 0}
+        close = {'}': '{', ']': '[', ')': '('}
+        for c in abbr:
+            if c in depth:
+                depth[c] += 1
+            elif c in close:
+                depth[close[c]] -= 1
+        if any(v > 0 for v in depth.values()):
+            out.append('cut-inside-open-delimiter')
+    return out
